@@ -286,6 +286,8 @@ def tlc_trace(module, trace_path, run_name, timeout=1800, constants=None, spec="
            "error_text": st["error_text"]}
     if um:
         res["unmatched"] = (int(um.group(1)), unquote_tlc_string(um.group(2)))
+    res["rejects"] = [(int(m.group(1)), unquote_tlc_string(m.group(2)))
+                      for m in re.finditer(r'^<<"REJECT", (\d+), "(.*)">>$', out, re.M)]
     return res
 
 
